@@ -348,10 +348,13 @@ def main():
     if pid == 'C18' and rep.get('unbounded_buffers'):
         print('MACHINERY: buffer fields without a declared C18 bound: %s (needs contract work, not a verdict)' % rep['unbounded_buffers']); sys.exit(2)
     n_canaries = len(re.findall(r'proof fn canary_', '\n'.join(gen_lines)))
+    # vacuity guards of the lemma modules used (`requires P ensures false` for every lemma precondition P): they MUST fail as well
+    vmods = ['props::%s_vac' % m for m in sorted(closure) if rep.get('vacuity', {}).get(m)]
+    n_canaries += sum(rep['vacuity'][m] for m in closure if rep.get('vacuity', {}).get(m))
     # ---- the deductive run
     rl = 40 if tier == 'quick' else 80
     # the canaries (module `canary`: `ensures false` with every broadcast group and axiom in scope) are verified in the same run and MUST fail
-    res = run_verus(gen, mods + pmods + ['canary'], rlimit=rl, timeout=600)
+    res = run_verus(gen, mods + pmods + ['canary'] + vmods, rlimit=rl, timeout=600)
     if res['json'] is None:
         print('MACHINERY: verus produced no result (rc=%s)\n%s' % (res['rc'], res['stderr'][-3000:])); sys.exit(2)
     vr = res['json']['verification-results']
@@ -359,7 +362,7 @@ def main():
         print('MACHINERY: verus rejected the generated text (unsupported construct or contract text out of date)\n%s' % res['stderr'][-3000:]); sys.exit(2)
     errs = parse_stderr(res['stderr'])
     def split_canary(es):
-        can = [e for e in es if e['primary'] and module_of_line(e['primary'], gen_lines).endswith('canary')]
+        can = [e for e in es if e['primary'] and (module_of_line(e['primary'], gen_lines).endswith('canary') or module_of_line(e['primary'], gen_lines).endswith('_vac'))]
         return can, [e for e in es if e not in can]
     can_errs, errs = split_canary(errs)
     if len(can_errs) != n_canaries or n_canaries == 0:
@@ -402,7 +405,7 @@ def main():
     # ---- obligations of this property
     obl = [o for o in lmap.values() if pid in o['tags'] and ('views::' + o['module']) in mods]   # only clauses of modules verified in this run
     fnres = fn_results(res['json'])
-    lemma_fns = [k for k, v in fnres.items() if '::props::' in k]
+    lemma_fns = [k for k, v in fnres.items() if '::props::' in k and '_vac::' not in k]
     n_obl = len(obl) + len(lemma_fns)
     if pid == 'C15':
         n_obl += len([k for k in fnres if '::views::' in k])
@@ -457,7 +460,7 @@ def main():
                   backend='Verus 0.2026.09.13 / Z3 (bundled with Verus)', solver_ms=sum(v['ms'] for v in fnres.values()),
                   functions_under_contract=sorted(set('%s::%s' % (o['module'], o['fn'].split('/')[0]) for o in obl)),
                   views_not_under_contract=rep['uncontracted'], views_without_clone=rep.get('not_clonable', []), views_with_handwritten_clone=rep.get('clone_unverified', []),
-                  functions_verified=len([v for v in fnres.values() if v['ok']]), functions_failed=[k for k, v in fnres.items() if not v['ok']],
+                  functions_verified=len([v for v in fnres.values() if v['ok']]), functions_failed=[k for k, v in fnres.items() if not v['ok'] and '::canary::' not in k and '_vac::' not in k],
                   property_lemmas=lemma_fns,
                   source_hashes={'%s::%s' % (f['module'], f['fn']): f['sha256'] for f in rep['functions'] if ('views::' + f['module']) in mods},
                   extraction_rules_applied=rep['rules_applied'],
@@ -493,7 +496,7 @@ def main():
     if undecided and not prereq:
         print('MACHINERY: solver resource limit exceeded in %s and the bounded search found no failing input (undecided, not a verdict)' % sorted(set((f['module'], f['fn']) for f in undecided)))
         sys.exit(2)
-    print('OK property=%s obligations=%d discharged=%d functions=%d bounded-search-cases=%s wall=%.1fs%s' % (pid, n_obl, n_obl - n_failed, len(fnres), probe.get('checked'), wall,
+    print('OK property=%s obligations=%d discharged=%d functions=%d bounded-search-cases=%s wall=%.1fs%s' % (pid, n_obl, n_obl - n_failed, len([k for k in fnres if '::canary::' not in k and '_vac::' not in k]), probe.get('checked'), wall,
           (' (proof unavailable for %d prerequisite obligation(s) of other properties; bounded search found nothing)' % len(prereq)) if prereq else ''))
     sys.exit(0)
 
